@@ -8,6 +8,7 @@ use crate::model::*;
 use crate::pipeprops;
 use crate::pipesim;
 use crate::readsim;
+use crate::tfbsim;
 use crate::report::{RunReport, RunStats};
 use crate::rng::{hash_bytes, Rng};
 
@@ -18,9 +19,11 @@ pub enum AnyCase {
     Enum(pipeprops::EnumCase),
     Read(readsim::ReadCase),
     Enc(readsim::EncCase),
+    Tfb(tfbsim::TfbCase),
+    Shuttle(tfbsim::ShuttleCase),
 }
 
-pub const ALL_PROPS: &[&str] = &["C01", "C02", "C03", "C04", "C05", "C06", "C10", "C07", "C08", "C09", "C11", "C13", "C14"];
+pub const ALL_PROPS: &[&str] = &["C01", "C02", "C03", "C04", "C05", "C06", "C10", "C07", "C08", "C09", "C11", "C12", "C13", "C14"];
 
 pub struct Budget {
     pub quick_runs: u64,
@@ -40,6 +43,10 @@ pub fn budget(prop: &str) -> Budget {
         "C05" => Budget {
             quick_runs: 640,
             thorough_runs: 40_000,
+        },
+        "C12" => Budget {
+            quick_runs: 8_000,
+            thorough_runs: 200_000,
         },
         "C14" => Budget {
             quick_runs: 400,
@@ -96,6 +103,17 @@ pub fn gen_case(prop: &str, seed: u64, idx: u64, tier: &str) -> AnyCase {
         "C03" | "C04" => return AnyCase::Read(readsim::gen_read_case(&mut rng, prop)),
         "C05" => return AnyCase::Read(readsim::gen_c05(&mut rng, idx)),
         "C10" => return AnyCase::Enc(readsim::gen_c10(&mut rng)),
+        "C12" => {
+            if idx % 40 == 0 {
+                return AnyCase::Shuttle(tfbsim::ShuttleCase {
+                    seed: rng.next_u64(),
+                    iters: if tier == "thorough" { 20_000 } else { 3_000 },
+                    scheduler: if (idx / 40) % 2 == 0 { "random".into() } else { "pct".into() },
+                    schedule: None,
+                });
+            }
+            return AnyCase::Tfb(tfbsim::gen_tfb(&mut rng));
+        }
         _ => {}
     }
     let p = profile_for(prop);
@@ -153,6 +171,8 @@ pub fn run_case(prop: &str, case: &AnyCase) -> RunReport {
         AnyCase::Read(rc) if prop == "C05" => readsim::run_c05(rc),
         AnyCase::Read(rc) => readsim::run_read_case(rc),
         AnyCase::Enc(ec) => readsim::run_c10(ec),
+        AnyCase::Tfb(tc) => tfbsim::run_tfb(tc),
+        AnyCase::Shuttle(sc) => tfbsim::run_shuttle(sc),
         AnyCase::Pipe(pc) if prop == "C13" => pipeprops::run_c13(pc),
         AnyCase::Pipe(pc) => {
             let out = pipesim::run_write(pc, false);
@@ -304,6 +324,8 @@ pub fn shrink(case: &AnyCase) -> Vec<AnyCase> {
         AnyCase::Enum(e) => pipeprops::shrink_c14(e).into_iter().map(AnyCase::Enum).collect(),
         AnyCase::Read(r) => readsim::shrink_read(r).into_iter().map(AnyCase::Read).collect(),
         AnyCase::Enc(e) => readsim::shrink_c10(e).into_iter().map(AnyCase::Enc).collect(),
+        AnyCase::Tfb(t) => tfbsim::shrink_tfb(t).into_iter().map(AnyCase::Tfb).collect(),
+        AnyCase::Shuttle(_) => vec![],
     }
 }
 
@@ -322,6 +344,7 @@ pub fn explicit_schedule(prop: &str, case: &AnyCase) -> AnyCase {
             }
         }
         AnyCase::Multi(m) => AnyCase::Multi(pipeprops::explicit_c11(m)),
-        AnyCase::Enum(_) | AnyCase::Read(_) | AnyCase::Enc(_) => case.clone(),
+        AnyCase::Enum(_) | AnyCase::Read(_) | AnyCase::Enc(_) | AnyCase::Tfb(_) => case.clone(),
+        AnyCase::Shuttle(sc) => AnyCase::Shuttle(tfbsim::explicit_shuttle(sc)),
     }
 }
